@@ -238,6 +238,8 @@ def _compare(part, t, T, vi, v, pv, decode_only, forms, case, key):
 def run_chunk(args):
     if args[0] == 'vint':
         return run_vint_chunk(args[1:])
+    if args[0] == 'kinds':
+        return run_kinds(args[1:])
     thorough, types, only = args
     import logging
     logging.disable(logging.CRITICAL)
@@ -353,6 +355,205 @@ def run_size_writer(only=None):
     return part
 
 
+# ------------------------------------------------------------------------------- input kinds
+# Every python input kind a scalar serializer accepts, at the boundary values of the type, compared with the
+# reference bytes of the value the object stands for (same encode oracle as the grid; the reference bytes of
+# values that are new in this layer are also decoded).
+KIND_CONTEXTS = ('top', 'list', 'tuple', 'map-value')
+KIND_INNER_PVS = (2, 4)                      # 16-bit and 32-bit collection framing around the element
+TZ_OFFSET_MINUTES = (0, 330, -480, 840, -720, -1)
+_ORD_EPOCH = 719163                          # date(1970, 1, 1).toordinal()
+
+
+def kind_cases(thorough):
+    """[(scalar type, input kind, reference value, maker() -> python object, decode too?)].
+
+    date: datetime.date, datetime.datetime (naive, every time of day of G.kind_times_of_day), 'yyyy-mm-dd',
+    the raw CQL integer (day + 2^31), util.Date built from each of them; timestamp: naive datetime, aware datetime
+    at six UTC offsets, int and float milliseconds, datetime.date for midnights; time: int nanoseconds,
+    datetime.time, 'HH:MM:SS[.f...]' with 9 and with the fewest fractional digits, util.Time built from each;
+    decimal: str (python's spelling and digitsEexp), int, float; float/double: int; inet: ipaddress objects, exploded /
+    upper-case / unpadded spellings of IPv6 addresses; blob: bytearray, memoryview."""
+    import datetime
+    import decimal
+    import ipaddress
+    import math
+    import struct
+    from cassandra import util
+    D = decimal.Decimal
+    out = []
+
+    def add(k, kind, ref, maker, decode=False, desc=None):
+        out.append(((k,), kind, ref, maker, decode, desc))
+
+    def const(x):
+        return lambda: x
+
+    # ---- date
+    tods = G.kind_times_of_day(thorough)
+    for d in G.kind_days(thorough):
+        dd = datetime.date.fromordinal(d + _ORD_EPOCH)
+        add('date', 'date', d, const(dd), True)
+        add('date', 'Date-of-date', d, lambda dd=dd: util.Date(dd), desc='util.Date(%r)' % (dd,))
+        s = '%04d-%02d-%02d' % (dd.year, dd.month, dd.day)
+        add('date', 'str', d, const(s))
+        add('date', 'Date-of-str', d, lambda s=s: util.Date(s), desc='util.Date(%r)' % (s,))
+        for tod in tods:
+            dtm = datetime.datetime(dd.year, dd.month, dd.day, *tod)
+            add('date', 'datetime', d, const(dtm))
+            add('date', 'Date-of-datetime', d, lambda dtm=dtm: util.Date(dtm), desc='util.Date(%r)' % (dtm,))
+    for d in G.scalar_values('date', thorough):
+        add('date', 'int-raw-cql', d, const(d + 2 ** 31))
+        add('date', 'Date-of-int', d, lambda d=d: util.Date(d), desc='util.Date(%r)' % (d,))
+
+    # ---- timestamp
+    epoch = datetime.datetime(1970, 1, 1)
+    for v in G.kind_instants(thorough):
+        naive = epoch + datetime.timedelta(milliseconds=v)
+        add('timestamp', 'int', v, const(v), True)
+        add('timestamp', 'float', v, const(float(v)))
+        add('timestamp', 'naive-datetime', v, const(naive))
+        for off in TZ_OFFSET_MINUTES:
+            delta = datetime.timedelta(minutes=off)
+            try:
+                local = naive + delta
+            except OverflowError:
+                continue                      # the wall-clock time at this offset is outside datetime's years
+            add('timestamp', 'aware-datetime', v, const(local.replace(tzinfo=datetime.timezone(delta))))
+        if v % 86400000 == 0:
+            add('timestamp', 'date', v, const(naive.date()))
+    for v in G.kind_wide_instants():
+        add('timestamp', 'int', v, const(v))              # beyond datetime: the decode direction has no python value
+        if float(v) == v:
+            add('timestamp', 'float', v, const(float(v)))
+
+    # ---- time
+    for v in G.kind_time_nanos(thorough):
+        sec, frac = divmod(v, 10 ** 9)
+        hms = '%02d:%02d:%02d' % (sec // 3600, sec // 60 % 60, sec % 60)
+        s9 = '%s.%09d' % (hms, frac)
+        add('time', 'int', v, const(v), True)
+        add('time', 'Time-of-int', v, lambda v=v: util.Time(v), desc='util.Time(%r)' % (v,))
+        add('time', 'str', v, const(s9))
+        add('time', 'Time-of-str', v, lambda s9=s9: util.Time(s9), desc='util.Time(%r)' % (s9,))
+        short_s = s9.rstrip('0')
+        if short_s != s9:
+            add('time', 'str-short', v, const(hms if short_s.endswith('.') else short_s))
+        if v % 1000 == 0:
+            tm = datetime.time(sec // 3600, sec // 60 % 60, sec % 60, frac // 1000)
+            add('time', 'time', v, const(tm))
+            add('time', 'Time-of-time', v, lambda tm=tm: util.Time(tm), desc='util.Time(%r)' % (tm,))
+
+    # ---- decimal
+    for v in G.scalar_values('decimal', thorough):
+        sign, digits, exp = v.as_tuple()
+        ds = ''.join(str(x) for x in digits)
+        add('decimal', 'str', v, const(str(v)))
+        add('decimal', 'str-digitsEexp', v, const('%s%sE%d' % ('-' if sign else '', ds, exp)))
+        if exp == 0:
+            add('decimal', 'int', v, const(-int(ds) if sign else int(ds)))
+    for n in G.scalar_values('varint', False):
+        add('decimal', 'int', D(n), const(n), True)
+    for f in G.kind_dyadic_floats():
+        add('decimal', 'float', D(repr(f)), const(f), True)
+
+    # ---- float / double given as int
+    for k, fmt, extra in (('float', '>f', (2 ** 24, -2 ** 24, 2 ** 31, 2 ** 127)), ('double', '>d', (2 ** 53, -2 ** 53, 2 ** 63, 2 ** 1023))):
+        vals = [x for x in G.scalar_values(k, thorough) if math.isfinite(x) and x == int(x) and not (x == 0 and math.copysign(1, x) < 0)]
+        for x in vals + [float(n) for n in extra]:
+            if struct.unpack(fmt, struct.pack(fmt, x))[0] == x:
+                add(k, 'int', x, const(int(x)), True)
+
+    # ---- inet
+    for a in G.scalar_values('inet', thorough):
+        ip = ipaddress.ip_address(a)
+        add('inet', 'ipaddress', a, const(ip), True)
+        if ip.version == 6:
+            add('inet', 'str-exploded', a, const(ip.exploded))
+            add('inet', 'str-upper', a, const(ip.exploded.upper()))
+            n = int.from_bytes(ip.packed, 'big')
+            add('inet', 'str-unpadded', a, const(':'.join('%x' % ((n >> (16 * (7 - i))) & 0xffff) for i in range(8))))
+
+    # ---- blob
+    for b in G.scalar_values('blob', thorough):
+        add('blob', 'bytearray', b, lambda b=b: bytearray(b), True)
+        add('blob', 'memoryview', b, lambda b=b: memoryview(b))
+    return out
+
+
+def _kind_ref(cname, t, v):
+    I = ('int',)
+    if cname == 'top':
+        return t, v
+    if cname == 'list':
+        return ('list', t), [v]
+    if cname == 'tuple':
+        return ('tuple', I, t), (1, v)
+    if cname == 'map-value':
+        return ('map', I, t), [(1, v)]
+    raise ValueError(cname)
+
+
+def run_kinds(args):
+    thorough, i, n, only = args
+    import logging
+    logging.disable(logging.CRITICAL)
+    part = Part()
+    cases = kind_cases(thorough)
+    for idx in range(i, len(cases), n):
+        if only is not None and idx != only['index']:
+            continue
+        t, kind, ref, maker, decode, desc = cases[idx]
+        part.count('input_kind_cases')
+        part.mark_nontrivial(hash(('kind', idx)))
+        for cname in KIND_CONTEXTS:
+            for pv in (PVS if cname == 'top' else KIND_INNER_PVS):
+                if only is not None and (cname, pv) != (only['context'], only['pv']):
+                    continue
+                case = {'layer': 'kinds', 'index': idx, 'context': cname, 'pv': pv, 'thorough': thorough,
+                        'cql_type': tstr(t), 'kind': kind, 'value': short(ref, 200)}
+                _kind_compare(part, t, kind, ref, maker, desc, cname, pv, case)
+                if decode and cname == 'top':
+                    part.count('evaluations')
+                    part.count('decode_comparisons')
+                    check_decode(part, t, B.driver_type(t), ref, pv, V.encode(t, ref, pv), dict(case, form='decode'))
+    return part
+
+
+def _kind_compare(part, t, kind, ref, maker, desc, cname, pv, case):
+    part.count('evaluations')
+    part.count('encode_comparisons')
+    part.count('input_kind_encode_comparisons')
+    rt, rv = _kind_ref(cname, t, ref)
+    want = V.encode(rt, rv, pv)
+    obj = None
+    try:
+        obj = maker()
+        ct, cv = in_context(cname, t, obj)
+        got = B.driver_type(ct).to_binary(cv, pv)
+    except Exception as e:
+        part.violation('C02/encode-raises/%s/given-as-%s/%s' % (t[0], kind, type(e).__name__),
+                       '%s value %s given as %s (%s) (context %s, pv=%d): the driver raised %r; Cassandra encodes the value as %s' % (
+                           tstr(t), short(ref, 120), kind, desc or short(obj, 160), cname, pv, e, want[:64].hex()), case)
+        part.outcome((t[0], kind, 'encode-raises'))
+        return
+    if got == want:
+        part.outcome((t[0], kind, 'bytes-equal'))
+        return
+    part.violation('C02/bytes/%s/value/given-as-%s' % (t[0], kind),
+                   '%s value %s given as %s (%s) (context %s, pv=%d): driver wrote %s, Cassandra writes %s' % (
+                       tstr(t), short(ref, 120), kind, desc or short(obj, 160), cname, pv, got[:96].hex(), want[:96].hex()), case)
+    part.outcome((t[0], kind, 'bytes-differ'))
+
+
+def kind_summary(thorough):
+    out = {}
+    for t, kind, ref, maker, decode, desc in kind_cases(thorough):
+        d = out.setdefault(t[0], {})
+        d[kind] = d.get(kind, 0) + 1
+    return out
+
+
 # ------------------------------------------------------------------------------- range probes
 def range_cases():
     """(failure kind, detail, scalar type, maker(util) -> the python object a user would pass)."""
@@ -398,6 +599,29 @@ def range_cases():
     add('malformed', '1.2.3.4.5', 'inet', lambda u: '1.2.3.4.5')
     add('malformed', 'g::1', 'inet', lambda u: 'g::1')
     return cases
+
+
+def kind_range_cases():
+    """Out-of-range values handed over as another accepted input kind:
+    (failure kind, detail, scalar type, maker(util), the reference value the object stands for)."""
+    import decimal
+    D = decimal.Decimal
+    n = V.NANOS_PER_DAY
+    return [
+        ('beyond-uint32', 'raw CQL int 2^32', ('date',), lambda u: 2 ** 32, 2 ** 31),
+        ('beyond-uint32', 'raw CQL int -1', ('date',), lambda u: -1, -2 ** 31 - 1),
+        ('one-day-or-more', "str '24:00:00'", ('time',), lambda u: '24:00:00', n),
+        ('one-day-or-more', "str '23:59:60'", ('time',), lambda u: '23:59:60', n),
+        ('one-day-or-more', "Time('23:59:60')", ('time',), lambda u: u.Time('23:59:60'), n),
+        ('non-finite', 'float nan', ('decimal',), lambda u: float('nan'), D('NaN')),
+        ('non-finite', 'float inf', ('decimal',), lambda u: float('inf'), D('Infinity')),
+        ('non-finite', "str 'NaN'", ('decimal',), lambda u: 'NaN', D('NaN')),
+        ('non-finite', "str '-Infinity'", ('decimal',), lambda u: '-Infinity', D('-Infinity')),
+        ('scale-beyond-int32', "str '1E+2147483649'", ('decimal',), lambda u: '1E+2147483649', D('1E+2147483649')),
+        ('scale-beyond-int32', "str '1E-2147483648'", ('decimal',), lambda u: '1E-2147483648', D('1E-2147483648')),
+        ('beyond-float32', 'int 2^128', ('float',), lambda u: 2 ** 128, 2.0 ** 128),
+        ('beyond-float32', 'int -2^128', ('float',), lambda u: -2 ** 128, -2.0 ** 128),
+    ]
 
 
 CONTEXTS = ('top', 'list', 'tuple', 'map-value', 'vector')
@@ -458,6 +682,13 @@ def run_ranges(only=None):
             if only is not None and idx != only:
                 continue
             _probe(part, idx, 'C02/range/%s/%s' % (kind, label), label, t, maker, 'top', pv, util)
+    for kind, detail, t, maker, ref in kind_range_cases():        # appended: earlier replay indices stay valid
+        for cname in CONTEXTS:
+            for pv in PVS:
+                idx += 1
+                if only is not None and idx != only:
+                    continue
+                _probe(part, idx, 'C02/range/%s/%s' % (t[0], kind), detail, t, maker, cname, pv, util)
     return part
 
 
@@ -493,6 +724,12 @@ def _self_check_range_list():
         except V.RefRangeError:
             continue
         raise AssertionError('range probe %s/%s is accepted by the reference' % (t[0], label))
+    for kind, label, t, maker, ref in kind_range_cases():
+        try:
+            V.encode(t, ref, 4)
+        except V.RefRangeError:
+            continue
+        raise AssertionError('range probe %s/%s is accepted by the reference' % (t[0], label))
 
 
 def type_space(quick):
@@ -517,7 +754,9 @@ def run(ctx):
     vtypes = ctx.rotate(vint_types())
     m = 6 if ctx.quick else ctx.nproc * 2
     vchunks = [('vint', thorough, vtypes[i::m], None) for i in range(m)]
-    for part in ctx.pmap(run_chunk, [c for c in chunks if c[1]] + [c for c in vchunks if c[2]]):
+    nk = 4 if ctx.quick else ctx.nproc
+    kchunks = [('kinds', thorough, i, nk, None) for i in range(nk)]
+    for part in ctx.pmap(run_chunk, [c for c in chunks if c[1]] + [c for c in vchunks if c[2]] + kchunks):
         ctx.merge(part)
     ctx.merge(run_ranges())
     ctx.merge(run_size_writer())
@@ -525,6 +764,10 @@ def run(ctx):
         'unsigned_edges_64bit': len(G.vint_edges(64)), 'durations': len(G.vint_durations()),
         'vector_types': len(G.vint_vector_types()), 'element_sizes': [s for s in G.vint_edges(32, 1, G.VINT_MAX_K) if s <= (1 << 22)],
         'size_writer_edges': len(size_writer_edges())}
+    ctx.cov['input_kind_layer'] = {'cases_per_type_and_kind': kind_summary(thorough), 'contexts': list(KIND_CONTEXTS),
+                                   'versions_inside_containers': list(KIND_INNER_PVS), 'utc_offsets_minutes': list(TZ_OFFSET_MINUTES),
+                                   'days': len(G.kind_days(thorough)), 'times_of_day': len(G.kind_times_of_day(thorough)),
+                                   'instants': len(G.kind_instants(thorough)), 'range_probes': len(kind_range_cases())}
     ctx.cov['type_trees_per_level'] = [len(l) for l in levels]
     ctx.cov['protocol_versions'] = list(PVS)
     ctx.cov['rule'] = ('every type tree of the grid (levels %s) x every generated value x 8 protocol versions: one encode comparison '
@@ -554,6 +797,8 @@ def replay(ctx, data):
         part = run_ranges(only=data['range_index'])
     elif 'size_writer' in data:
         part = run_size_writer(only=data['size_writer'])
+    elif data.get('layer') == 'kinds':
+        part = run_kinds((bool(data['thorough']), data['index'], 1, data))
     elif data.get('layer') == 'vint':
         part = run_chunk(('vint', bool(data['thorough']), [tuplify(data['type'])], data))
     else:
